@@ -27,6 +27,9 @@ type c03Scenario struct {
 	// FailDelay: the task manager's own bookkeeping of an executor/agent failure is held up (delay points
 	// at the start of its goroutines), so that the task's terminal status update is processed first
 	FailDelay bool `json:"fail_delay,omitempty"`
+	// GoErrorHookFails: a critical call hook at before_GO_ERROR fails, so the watcher's gentle GO_ERROR is
+	// cancelled and the environment has to be forced to ERROR
+	GoErrorHookFails bool `json:"go_error_hook_fails,omitempty"`
 }
 
 func (sc c03Scenario) class() string {
@@ -36,6 +39,9 @@ func (sc c03Scenario) class() string {
 	}
 	if sc.FailDelay {
 		return fmt.Sprintf("%s/%s/%s/%s+status-first", sc.State, k, sc.Kind, sc.Instant)
+	}
+	if sc.GoErrorHookFails {
+		return fmt.Sprintf("%s/%s/%s/%s+go-error-hook-fails", sc.State, k, sc.Kind, sc.Instant)
 	}
 	return fmt.Sprintf("%s/%s/%s/%s", sc.State, k, sc.Kind, sc.Instant)
 }
@@ -57,6 +63,8 @@ func c03Scenarios(c *vlib.Ctx) []c03Scenario {
 		for _, k := range []string{"failed", "lost"} {
 			out = append(out, c03Scenario{State: st, Critical: true, Kind: k, Instant: "late-reply", Delay: k == "lost"})
 		}
+		out = append(out, c03Scenario{State: st, Critical: true, Kind: "failed", Instant: "late-reply", GoErrorHookFails: true})
+		out = append(out, c03Scenario{State: st, Critical: true, Kind: "killed", Instant: "idle", GoErrorHookFails: true})
 	}
 	for _, st := range []string{"CONFIGURED", "RUNNING"} {
 		for _, k := range []string{"exec-failure+status", "agent-failure+status"} {
@@ -145,6 +153,10 @@ func c03Run(c *vlib.Ctx, idx int, sc c03Scenario) {
 		{Name: "t3", Host: "host3", Critical: false, Mode: "basic"},
 		{Name: "t4", Host: "host1", Critical: true, Mode: "direct"}, // last in child order: the victim of "mixed"
 	}}
+	if sc.GoErrorHookFails {
+		wf.Calls = append(wf.Calls, coresim.CallSpec{Name: "goerrhook", Func: "verif.Fail()", Trigger: "before_GO_ERROR", Critical: true, Vars: map[string]string{"verif_tag": "fail"}})
+		c.Count("faults_with_failing_go_error_hook", 1)
+	}
 	opt := coresim.Options{Agents: stdAgents(3), Detectors: stdDetectors(3), Files: wf.Files()}
 	var points []string
 	if sc.Delay {
